@@ -5,6 +5,8 @@
 (* Item kinds and the capability they need when first used:                *)
 (*   "file" "http" "command"   external placeholder sources   -> "ext"     *)
 (*   "ptemplate" "ftemplate"   template with a Python vars file -> "vars"  *)
+(*   "ytag"                    a YAML tag that calls a Python function     *)
+(*                             while the pipeline text is parsed           *)
 (*   "jcmd" "jvars" "jfile"    a template whose TEXT reaches for a         *)
 (*                             capability through the objects it is given  *)
 (*                             (loads a pipeline with opt-in arguments of  *)
@@ -25,7 +27,7 @@
 (***************************************************************************)
 EXTENDS Integers, Sequences, FiniteSets
 
-Kinds == {"file", "http", "command", "ptemplate", "ftemplate", "jcmd", "jvars", "jfile"}
+Kinds == {"file", "http", "command", "ptemplate", "ftemplate", "jcmd", "jvars", "jfile", "ytag"}
 CapOf(k) == IF k \in {"file", "http", "command", "jcmd", "jfile"} THEN "ext" ELSE "vars"
 ViaTemplateText(k) == k \in {"jcmd", "jvars", "jfile"}
 EnvValues == {"unset", "0", "1", "true", "TRUE", "yes"}
@@ -36,7 +38,9 @@ DirModes == {"none", "caller", "source"}                        \* where allowed
 
 \* case == [kind, depth, inject (set of levels with truthy opt-in keys written into the document),
 \*          caller (BOOLEAN: the opt-in argument for this kind's capability), env, pathclass, dirs]
-Granted(c) == c.caller \/ EnvTruthy(c.env)
+\* (kind "ytag": the pipeline TEXT carries a YAML tag that constructs a Python object - calls a function - while the
+\*  text is parsed; no opt-in covers that, it is never granted and the text is not a loadable document)
+Granted(c) == c.kind # "ytag" /\ (c.caller \/ EnvTruthy(c.env))
 MayRun(c) == /\ Granted(c)
              /\ (CapOf(c.kind) = "vars" /\ c.dirs # "none") => Contained(c.pathclass)
 
@@ -45,7 +49,7 @@ SInit == [phase |-> "start", bit |-> FALSE, effect |-> FALSE, error |-> "none"]
 \* Loading: the item's capability bit is the CALLER's argument and nothing else; keys in the document
 \* are dropped (a top-level key makes the document invalid).
 SLoad(c, st) ==
-    IF "top" \in c.inject THEN [st EXCEPT !.phase = "loadfailed", !.error = "config"]
+    IF "top" \in c.inject \/ c.kind = "ytag" THEN [st EXCEPT !.phase = "loadfailed", !.error = "config"]
     ELSE [st EXCEPT !.phase = "loaded", !.bit = c.caller]
 SUse(c, st) ==
     IF st.phase # "loaded" THEN st
